@@ -167,6 +167,8 @@ impl From<PublishMetric> for Metric {
 
         if let Some(val) = value.value {
             metric.set_value(val.into());
+        } else {
+            metric.set_null();
         }
 
         metric.timestamp = Some(value.timestamp);
